@@ -143,6 +143,7 @@ pub fn check_masking(cx: &mut Cx, frame: &str, v: &Value, secrets: &[Secret], ex
 }
 
 pub fn check_masking_h(cx: &mut Cx, frame: &str, origin: &str, v: &Value, secrets: &[Secret], extra_challenges: &[(String, Integer)], hist: &mut History) {
+    check_range_roots(cx, frame, v, secrets);
     let ls = leaves(v);
     let bound = Integer::from(1) << 64u32;
     // candidate challenges: every leaf named challenge / C (and C mod 2^128), plus recomputed ones
@@ -192,6 +193,43 @@ pub fn check_masking_h(cx: &mut Cx, frame: &str, origin: &str, v: &Value, secret
                 cx.count("n.division_tests");
                 if Integer::from(&q - &x.value).abs() < bound {
                     cx.violation("C19", format!("{frame}/{rp}/div/{rp2}/{}", x.kind), format!("floor({rp} / {rp2}) is within 2^64 of the sender's {} (difference {})", x.kind, Integer::from(&q - &x.value)));
+                }
+            }
+        }
+    }
+}
+
+/// C19 inside the range proofs: the two proofs of square of a Boudot proof answer for the integer
+/// ROOT of 2^T (x - a) + tolerance (side a) and of 2^T (b - x) + tolerance (side b).  The map from
+/// the root back to x is public (square, shift by T, add a / subtract from b), so a response that
+/// gives the root away gives x away: floor(d / challenge), squared and mapped back, must stay at
+/// least 2^64 from every secret of the sender, for every interval the library proves membership in
+pub fn check_range_roots(cx: &mut Cx, frame: &str, v: &Value, secrets: &[Secret]) {
+    let ls = leaves(v);
+    let bound = Integer::from(1) << 64u32;
+    let one = Integer::from(1);
+    let intervals: Vec<(Integer, Integer)> = vec![
+        (Integer::from(0), Integer::from(&one << 256u32) - 1u32),
+        (Integer::from(&one << 257u32) + 1u32, Integer::from(&one << 258u32) - 1u32),
+        (Integer::from(0), Integer::from(&one << 1024u32) - 1u32),
+        (Integer::from(0), Integer::from(&one << 2048u32) - 1u32),
+    ];
+    for (p, d) in &ls {
+        if !p.ends_with(".proof_ss.d") || !p.contains("proof_of_square_") { continue; }
+        let cpath = format!("{}challenge", &p[..p.len() - 1]);
+        let Some((_, c)) = ls.iter().find(|(q, _)| *q == cpath) else { continue };
+        if *c <= 0 || *d <= 0 { continue; }
+        let q = Integer::from(d / c);
+        let q2 = Integer::from(&q * &q);
+        let side_a = p.contains("proof_of_square_a");
+        for (a, b) in &intervals {
+            let t_big = 2 * (128 + 40 + 1) + Integer::from(b - a).significant_bits();
+            let y = Integer::from(&q2 >> t_big);
+            let cand = if side_a { Integer::from(a + &y) } else { Integer::from(b - &y) };
+            for x in secrets.iter().filter(|x| x.value.significant_bits() > 128) {
+                cx.count("n.range_root_tests");
+                if Integer::from(&cand - &x.value).abs() < bound {
+                    cx.violation("C19", format!("{frame}/{}/root-div/challenge/{}", generic_path(p), x.kind), format!("floor({p} / challenge)^2 >> {t_big}, mapped back into [a, b], is within 2^64 of the sender's {} (difference {}): the proof of square gives its root away", x.kind, Integer::from(&cand - &x.value)));
                 }
             }
         }
